@@ -220,7 +220,9 @@ def ann_scripts(rng, hists, tick_s, powdiff=8, vary=True):
 def ann_random(rng, n):
     out = []
     for _ in range(n):
-        interval, window, burst = rng.choice([(1, 1, 1), (15, 120, 4), (60, 120, 2), (2, 4, 2), (30, 30, 3), (0, 0, 0), (120, 180, 2), (5, 3600, 3), (45, 90, 8)])
+        interval, window, burst = rng.choice([(1, 1, 1), (15, 120, 4), (60, 120, 2), (2, 4, 2), (30, 30, 3), (0, 0, 0), (120, 180, 2), (5, 3600, 3), (45, 90, 8),
+                                              # a minimum interval above the window, and above the one-hour cap of the window
+                                              (100, 10, 3), (7200, 600, 4), (3600, 60, 2), (5000, 5000, 2)])
         powdiff = rng.choice([8, 8, 8, 9, 0])
         npeers = rng.choice([1, 2, 3])
         lines = ["reset mode=ann interval=%d window=%d burst=%d powdiff=%d npeers=%d" % (interval, window, burst, powdiff, npeers)]
@@ -242,7 +244,7 @@ def ann_random(rng, n):
                 marks.append(now)
             else:
                 # land exactly on / next to a boundary that started at an earlier announce
-                future = [m + s * 1000 + o for m in marks[-6:] for s in (iv, wd, 120, 180) for o in (-1, 0, 0, 1) if m + s * 1000 + o > now]
+                future = [m + s * 1000 + o for m in marks[-6:] for s in (iv, wd, 120, 180, 3600) for o in (-1, 0, 0, 1) if m + s * 1000 + o > now]
                 if future and rng.random() < 0.65:
                     d = rng.choice(future) - now
                 else:
@@ -252,6 +254,12 @@ def ann_random(rng, n):
                 if rng.random() < 0.35:
                     lines.append("tick")      # the daemon ticks between announces (cleanup passes must not refill a peer's budget)
         out.append(lines)
+    # minimum intervals longer than the (capped) burst window: an announce between the window and the interval after the last admitted one
+    for interval, window in ((7200, 600), (5000, 5000), (3700, 3600), (100, 10)):
+        cap = min(max(window, 1), 3600)
+        for gap in (cap + 1, (cap + interval) // 2, interval - 1, interval, interval + 1):
+            out.append(["reset mode=ann interval=%d window=%d burst=4 powdiff=0 npeers=2" % (interval, window), ann_cmd(rng, 1, "ok", 3), "adv ms=%d" % (gap * 1000),
+                        ann_cmd(rng, 1, "ok", 3), ann_cmd(rng, 2, "ok", 3), "tick", "adv ms=1000", ann_cmd(rng, 1, "ok", 3)])
     # long quiet gaps inside wide burst windows, with ticks in the gap
     for _ in range(max(20, n // 10)):
         burst = rng.choice([2, 3, 4])
